@@ -276,10 +276,26 @@ fn exec_supply_inner(check: &str, t: &SupplyTrace, scratch: &Scratch, rec: &mut 
             d.str(&s.to_string());
         }
     }
-    d.str(&j.shape);
+    // (whether an armed read fault came to FIRE depends, on the long-lived thread, on how far a failing
+    // verification got before it failed)
+    if t.same_thread {
+        let mut sh = j.shape.clone();
+        for l in ["R-EIO", "R-SHORT", "R-EINTR"] {
+            sh = sh.replace(&format!(", \"{l}\""), "").replace(&format!("\"{l}\", "), "").replace(&format!("\"{l}\""), "");
+        }
+        d.str(&sh);
+    } else {
+        d.str(&j.shape);
+    }
     // (and which delegated levels, with their inspections, were gone through before a failing level)
     let order_free = !(t.same_thread && o.verdicts.iter().any(|v| !v.ok));
     for e in &o.events {
+        // (on the long-lived thread the ORDER in which delegated levels, and so their inspections, are gone
+        // through depends on the thread's history even when all of them pass: the events count as a set there)
+        let mut e: Vec<&String> = e.iter().collect();
+        if t.same_thread {
+            e.sort();
+        }
         for l in e {
             if order_free {
                 d.str(l);
